@@ -477,7 +477,7 @@ PROFILES = {
     "C08": dict(jumps=0.85, params=0.3, hooks=0.2, join=0.2, n_passages=(3, 7)),
     "C09": dict(hooks=1.0, join=0.4, jumps=0.3, faults=0.04),
     "C10": dict(join=1.0, hooks=0.4, one_time=0.5, jumps=0.2),
-    "C15": dict(faults=0.3, params=0.5, hooks=0.5, join=0.3, jumps=0.4),
+    "C15": dict(faults=0.3, params=0.5, hooks=0.5, join=0.3, jumps=0.4, loops=0.7),
 }
 
 
@@ -728,8 +728,21 @@ def run_engine_property(pid: str, tier: str, seed: int, design_note: str) -> int
     for i in range(n_cases):
         sub = rng.randrange(10 ** 9)
         r = random.Random(sub)
-        g = G.Gen(r, G.Profile(**prof_kw))
+        kw = dict(prof_kw)
+        single = None
+        if kw.get("faults", 0) >= 0.2:
+            if r.random() < 0.5:
+                kw["faults"] = 0.0       # fault injection proper: a fault-free story with ONE failing construct
+                single = True
+            else:
+                # a high fault rate everywhere hides the deeper sites behind the first failure: vary it per story
+                kw["faults"] = r.choice([0.04, 0.08, 0.15, kw["faults"]])
+        g = G.Gen(r, G.Profile(**kw))
         src = g.source()
+        if single:
+            src, fk = G.inject_one_fault(src, r)
+            stats.setdefault("single_fault_kinds", {})
+            stats["single_fault_kinds"][str(fk)] = stats["single_fault_kinds"].get(str(fk), 0) + 1
         try:
             story = R.compile_story(src)
         except Exception:
